@@ -228,7 +228,8 @@ fn checking_calls(pl: &Plan, prefix: &str) -> Vec<(String, Arg, Option<Arg>, Vec
         for mac in CHECK1 {
             v.push((mac.to_string(), a.clone(), None, vec![], 0, mcall(mac, prefix, a, None, &[], 0)));
         }
-        for d in &pl.datas {
+        // also expectations that differ from the fixture's contents by a line terminator only
+        for d in pl.datas.iter().chain([b"x\n".to_vec(), b"\n".to_vec(), b"x\r\n".to_vec()].iter()) {
             v.push(("read_all".to_string(), a.clone(), None, d.clone(), 0, mcall("read_all", prefix, a, None, d, 0)));
         }
     }
